@@ -11,7 +11,8 @@ EXTENDS Gateway, Json, IOUtils, TLCExt
 
 CONSTANTS MaxJobs,      \* bound on the job queue (sync flavour)
           MaxDepth,     \* bound on behaviour length
-          WithPersist   \* explore StartPersist / Tick / StopRestart
+          WithPersist,  \* explore StartPersist / Tick / StopRestart
+          WithReact     \* explore an event callback that answers a SET report with one of the alphabet's set_child_value calls
 
 A == JsonDeserialize(IOEnv.ALPHABET_FILE)
 Lines == A.lines          \* sequence of line records
@@ -28,34 +29,44 @@ MCChoices(nd, iss, l) ==
          THEN SetToSeqs(BurstSet(nd, l.h.n)) ELSE {<<>>},
    ack : {IF l.wf THEN l.h.ack ELSE 0}]
 
-MCInit == Init /\ last = [a |-> "Init", i |-> 0]
+\* re-entry: the application's callback, while a SET report of node n / child c is being announced, makes one of the alphabet's
+\* set_child_value calls for that node and child (0 = it does not)
+ReactIdx(l) == IF WithReact /\ l.wf /\ l.h.cmd = SET
+               THEN {0} \cup {k \in 1..Len(Calls) : Calls[k].a = "SetChild" /\ Calls[k].n = l.h.n /\ Calls[k].c = l.h.c}
+               ELSE {0}
+RxOf(k) == IF k = 0 THEN NoReact
+           ELSE [on |-> TRUE, kind |-> "set", n |-> 0, f |-> <<0, 0>>, t |-> Calls[k].t, v |-> Calls[k].v, a |-> Calls[k].ack]
+
+MCInit == Init /\ last = [a |-> "Init", i |-> 0, r |-> 0]
 
 \* after a stop the new gateway object first reloads the file (start_persistence) - a restart
 \* that never loads has no memory by design and is not what C06 / C14 talk about
 MCNext ==
-  IF last.a = "StopRestart" THEN StartPersist /\ last' = [a |-> "StartPersist", i |-> 0] ELSE
+  IF last.a = "StopRestart" THEN StartPersist /\ last' = [a |-> "StartPersist", i |-> 0, r |-> 0] ELSE
   \/ \E i \in 1..Len(Lines) :
        \/ /\ Flavour = "async"
-          /\ \E ch \in MCChoices(nodes, issued, Lines[i]) : RecvAsync(Lines[i], ch)
-          /\ last' = [a |-> "Recv", i |-> i]
+          /\ \E ch \in MCChoices(nodes, issued, Lines[i]), k \in ReactIdx(Lines[i]) :
+                /\ RecvAsyncR(Lines[i], ch, RxOf(k))
+                /\ last' = [a |-> "Recv", i |-> i, r |-> k]
        \/ /\ Flavour = "sync" /\ Len(jobs) < MaxJobs
           /\ RecvSync(Lines[i])
-          /\ last' = [a |-> "Recv", i |-> i]
+          /\ last' = [a |-> "Recv", i |-> i, r |-> 0]
   \/ /\ Flavour = "sync" /\ jobs # <<>>
      /\ IF Head(jobs).k = "L"
-        THEN /\ \E ch \in MCChoices(nodes, issued, Head(jobs).l) : Pump(ch)
-             /\ last' = [a |-> "PumpL", i |-> Head(jobs).l.id]
+        THEN \E ch \in MCChoices(nodes, issued, Head(jobs).l), k \in ReactIdx(Head(jobs).l) :
+                /\ PumpR(ch, RxOf(k))
+                /\ last' = [a |-> "PumpL", i |-> Head(jobs).l.id, r |-> k]
         ELSE /\ Pump([id |-> 0, ord |-> <<>>, ack |-> 0])
-             /\ last' = [a |-> "PumpE", i |-> 0]
+             /\ last' = [a |-> "PumpE", i |-> 0, r |-> 0]
   \/ \E i \in 1..Len(Calls) :
        LET c == Calls[i] IN
        /\ \/ c.a = "SetChild" /\ CSetChild(c.n, c.c, c.t, c.v, c.ack) /\ (Flavour = "sync" => Len(jobs) < MaxJobs)
           \/ c.a = "UpdateFw" /\ CUpdateFw({c.nids[k] : k \in 1..Len(c.nids)}, <<c.f[1], c.f[2]>>, c.img)
           \/ c.a = "Metric" /\ CMetric(c.b)
-       /\ last' = [a |-> "Call", i |-> i]
-  \/ WithPersist /\ StartPersist /\ last' = [a |-> "StartPersist", i |-> 0]
-  \/ WithPersist /\ Tick /\ last' = [a |-> "Tick", i |-> 0]
-  \/ WithPersist /\ pers /\ StopRestart /\ last' = [a |-> "StopRestart", i |-> 0]
+       /\ last' = [a |-> "Call", i |-> i, r |-> 0]
+  \/ WithPersist /\ StartPersist /\ last' = [a |-> "StartPersist", i |-> 0, r |-> 0]
+  \/ WithPersist /\ Tick /\ last' = [a |-> "Tick", i |-> 0, r |-> 0]
+  \/ WithPersist /\ pers /\ StopRestart /\ last' = [a |-> "StopRestart", i |-> 0, r |-> 0]
 
 MCSpec == MCInit /\ [][MCNext]_mcvars
 Bound == TLCGet("level") <= MaxDepth
@@ -171,6 +182,8 @@ AcceptedImpliesDeliverable ==
 ConfirmedNeverResent ==
   [][IsLineStep /\ Accepted(StepLine[1]) /\ StepLine[1].h.cmd = SET
        /\ IsKnown(nodes, StepLine[1].h.n, StepLine[1].h.c) /\ StepLine[1].h.c \in DOMAIN nodes[StepLine[1].h.n].desired
+       \* (unless the application, in the callback of this very report, asks for a value of that type again)
+       /\ (last'.r = 0 \/ Calls[last'.r].t # StepLine[1].h.sub)
        => nodes'[StepLine[1].h.n].desired[StepLine[1].h.c][StepLine[1].h.sub] = NULLV]_mcvars
 
 \* C10
